@@ -87,3 +87,12 @@ META["C09"] = {
     "note": "The in-package test is overlaid into pkg/resource at check time; waits are bounded at 5 s (three orders of magnitude above observed latency); the send-timeout case takes ~5 s of real time and accepts 4-9 s.",
     "technique": "bounded-exhaustive schedule/script enumeration against an independent merge model + rapid API-level pacing tests with fold/chain oracles",
 }
+META["C02"] = {
+    "text": ("Schedule exploration with an explicit linearizability oracle. Systematic part: rapid draws a write and up to three nested interfering writes and, through the verif-tagged hook points, "
+             "runs each interfering call inline inside a chosen window of the outer call (between optimistic read, change function, lock and save; Delete's retry loop re-fired up to 6 times), "
+             "giving deterministic, shrinkable interleavings. Statistical part: 2-4 goroutines with hook points turned into drawn yields, and increment stress on 2-8 goroutines. Every recorded "
+             "history (results, invocation/response order, final contents) is checked by exhaustive search for a one-at-a-time order of the reference store that explains it; failures must be "
+             "model-explained or race codes without effect; sums of successful increments must equal the counter."),
+    "note": "Decides linearizability exactly only for the forced windows and for whatever the scheduler produces under stress; assumes mutex-protected sections are atomic; hooks are compiled in with -tags verif only.",
+    "technique": "hook-forced interleaving generation (rapid) + goroutine stress with yield fuzzing; oracle = exhaustive linearization search against the reference store",
+}
